@@ -1,9 +1,13 @@
 #!/bin/bash
 # usage: tools/try_seeded.sh <seeded-dir-name> <check ids...>   — apply the patch to /repo, run the checks, undo
+# evidence/ is saved and restored: evidence committed in /verif only ever comes from runs against the unchanged /repo.
 d=/verif/seeded/$1; shift
-git -C /repo apply "$d/patch.diff" || { echo "patch does not apply"; exit 3; }
+sav=$(mktemp -d /root/scratch/evsave.XXXXXX); cp -a /verif/evidence/. $sav/
+git -C /repo apply "$d/patch.diff" || { echo "patch does not apply"; rm -rf $sav; exit 3; }
 for c in "$@"; do
   out=$(cd /verif && ./check $c 2>&1); rc=$?
   echo "== $c exit=$rc $(echo "$out" | grep -c '^VIOLATION') violation line(s): $(echo "$out" | grep '^VIOLATION' | head -2 | tr '\n' ' ')"
 done
 git -C /repo checkout -- . && git -C /repo status --short | head -3
+(cd /verif && /venv/bin/python tools/extract.py >/dev/null 2>&1)
+cp -a $sav/. /verif/evidence/; rm -rf $sav
